@@ -102,6 +102,13 @@ def private_driver():
         d = tempfile.mkdtemp(prefix="verif-driver-")
         shutil.copy2(LEAN / ".lake" / "build" / "bin" / "driver", d + "/driver")
         DRIVER = Path(d) / "driver"
+        import atexit
+        owner = os.getpid()
+
+        def _cleanup(d=d, owner=owner):     # the copy is scratch: remove it when THIS process ends (not in forked workers)
+            if os.getpid() == owner:
+                shutil.rmtree(d, ignore_errors=True)
+        atexit.register(_cleanup)
 
 
 def module_file(mod):
